@@ -368,7 +368,10 @@ theorem gstep_doLocalWrite (fuel : Nat) (ih : GMachine A R fuel) :
   obtain ⟨_, _, _, _, _, _, i7, i8, _⟩ := ih
   simp only [doLocalWrite]
   split
-  · exact i8 _ _ h
+  · apply i8
+    rcases discDone_cases w which with ⟨e, _⟩ | ⟨e, _⟩ <;> rw [e]
+    · exact h
+    · exact h.handleDisconnect hc
   · split
     · rename_i w' heq
       exact (h.ioWrite' heq).suspend (by repeat' split
